@@ -149,6 +149,12 @@ func runC20(c *Ctx) {
 				default:
 				}
 				cache := base.NewBaseCache(16, time.Hour, dsmysql.NewMysqlTrigger(), w.Bare, cfg)
+				if k%2 == 1 {
+					// a cache that already knows a table when its refresher starts: the first refresh runs at once
+					if conn, err := w.Bare.Conn(context.Background()); err == nil {
+						cache.GetTableMeta(context.Background(), "verifdb", table, conn)
+					}
+				}
 				var iw sync.WaitGroup
 				for j := 0; j < 3; j++ {
 					iw.Add(1)
@@ -233,7 +239,7 @@ func runC20(c *Ctx) {
 		// connections checked out of the shared pools and never given back (the asynchronous commit worker
 		// may still be deleting undo logs: give the pools a moment to drain)
 		countInUse := func() int {
-			n := w.DB.Stats().InUse + xa.Stats().InUse
+			n := w.DB.Stats().InUse + xa.Stats().InUse + w.Bare.Stats().InUse // (w.Bare: the table-meta caches of this round draw from it)
 			for _, bt := range []branch.BranchType{branch.BranchTypeAT, branch.BranchTypeXA} {
 				datasource.GetDataSourceManager(bt).GetCachedResources().Range(func(_, v interface{}) bool {
 					if res, ok := v.(*sql2.DBResource); ok && res.GetDB() != nil {
